@@ -27,5 +27,28 @@ for fn, ls in sorted(unt.items()):
     if not [u for u in us if (not u[1]) or u[2]]:
         print('HOLE: %s has %d untagged clause(s) and no unit that keeps untagged obligations (units: %s)' % (fn, len(ls), us))
         bad += 1
-print('audit_tags: %d function(s) with untagged clauses, %d hole(s)' % (len(unt), bad))
+# informational: loop invariants tagged for another property that a unit assumes without proving them itself
+# (no all_invariants): the verdict of that unit then rests on the other property's check as well.
+inv = {}
+cur = None
+for f in glob.glob('/repo/**/*contracts_verif.go', recursive=True):
+    for l in open(f).read().split('\n'):
+        m = re.match(r'//@ (assume )?func (\S+)', l)
+        if m:
+            cur = None if m.group(1) else m.group(2)
+            continue
+        m = re.match(r'//@ loop \d+ invariant\[([^\]]*)\]\s', l)
+        if m and cur:
+            inv.setdefault(cur, []).append(set(m.group(1).split(',')))
+dep = 0
+for prop, d in p.items():
+    for u in d.get('units', []):
+        tags = set(u.get('tags') or [])
+        if not tags or u.get('all_invariants'):
+            continue
+        n = len([t for t in inv.get(u['fn'], []) if not (t & tags)])
+        if n:
+            dep += 1
+            print('note: %s unit %s assumes %d loop invariant(s) proved by another property\'s check' % (prop, u['fn'], n))
+print('audit_tags: %d function(s) with untagged clauses, %d hole(s), %d unit(s) resting on foreign invariants' % (len(unt), bad, dep))
 sys.exit(1 if bad else 0)
